@@ -257,15 +257,18 @@ Definition step (s : state) (l : label) : option state :=
       let tk := tasks s t in
       match t_pc tk with
       | TStart =>
-          let after (s1 : state) :=
+          (* fr = free permits once the region is started.  KFn: go on to the push.  KOuter: the closure
+             returns region.Start()'s nil, the deferred lr.End() releases again (= finish) *)
+          let after (fr : nat) :=
             match t_kind tk with
-            | KFn => Some (with_tasks s1 (upd (tasks s1) t (set_pc (tasks s1 t) TPush)))
-            | KOuter => Some (finish s1 t false None)
+            | KFn => Some (mkState (upd (tasks s) t (set_pc_holds tk TPush true)) (ntasks s) (frames s) (nframes s) fr
+                                   (tracker s) (top_cancelled s) (failed s))
+            | KOuter => Some (mkState (upd (tasks s) t (set_pc_holds tk (TFin false) false)) (ntasks s) (frames s) (nframes s) (S fr)
+                                      (tracker s) (top_cancelled s) (failed s))
             end in
-          if t_holds tk then after s
+          if t_holds tk then after (free s)
           else match free s with
-               | S k => after (mkState (upd (tasks s) t (set_pc_holds tk TStart true)) (ntasks s) (frames s) (nframes s) k
-                                       (tracker s) (top_cancelled s) (failed s))
+               | S k => after k
                | O => None
                end
       | _ => None
